@@ -21,6 +21,13 @@ pub fn case(ent: EntityCfg, method: &str, headers: Vec<(String, Vec<u8>)>, class
     if COUNTER.fetch_add(1, std::sync::atomic::Ordering::Relaxed) % 2 == 1 {
         hints.push(Val::L(vec![Val::N(8), Val::N(1)]));
     }
+    // two cases in five: the request is not an HTTP/1.1 request (hint 10: 0 = HTTP/0.9, 1 = 1.0, 2 = 2, 3 = 3);
+    // nothing in serve() may depend on the version
+    static VCOUNTER: std::sync::atomic::AtomicU64 = std::sync::atomic::AtomicU64::new(0);
+    let vc = VCOUNTER.fetch_add(1, std::sync::atomic::Ordering::Relaxed);
+    if vc % 5 >= 3 {
+        hints.push(Val::L(vec![Val::N(10), Val::N((vc / 5 + vc % 5) % 4)]));
+    }
     ServeCase { ent, method: method.as_bytes().to_vec(), headers, extra_polls: 2, max_polls: 400, class, hints: Val::L(hints) }
 }
 
@@ -449,6 +456,7 @@ pub fn etag_variants() -> Vec<Option<Tag>> {
         Some(Tag { weak: false, opaque: b"abc".to_vec() }),
         Some(Tag { weak: true, opaque: b"abc".to_vec() }),
         Some(Tag { weak: false, opaque: b"a, b".to_vec() }),
+        Some(Tag { weak: false, opaque: b"caf\xe9".to_vec() }),
     ]
 }
 pub fn mtime_variants() -> Vec<Option<u64>> {
@@ -456,6 +464,10 @@ pub fn mtime_variants() -> Vec<Option<u64>> {
     // truncation would land on the wrong second)
     vec![None, Some(T0 * 1_000_000_000), Some(T0 * 1_000_000_000 + 500_000_000), Some(T0 * 1_000_000_000 + 999_999_999)]
 }
+/// the first second of the year 10000 (no HTTP-date exists for it) and a time far beyond, in ns:
+/// legal SystemTimes an entity may report (a garbage file timestamp); u64 ns reach the year 2554 only,
+/// so these are given in seconds and the entity adds them as a Duration
+pub const FAR_FUTURE_SECS: [u64; 2] = [253_402_300_800, 1 << 50];
 pub fn ehdr_sets() -> Vec<Vec<(String, Vec<u8>)>> {
     vec![
         vec![],
@@ -472,7 +484,7 @@ pub fn ehdr_sets() -> Vec<Vec<(String, Vec<u8>)>> {
 pub fn ent_with(len: u64, etag: &Option<Tag>, mtime: Option<u64>, hdrs: Vec<(String, Vec<u8>)>) -> EntityCfg {
     let mut e = ent(len);
     e.etag = etag.as_ref().map(|t| t.render());
-    e.mtime_ns = mtime;
+    e.mtime_ns = mtime.map(|m| m as u128);
     e.hdrs = hdrs;
     e
 }
@@ -566,6 +578,10 @@ fn tag_pool(etag: &Option<Tag>) -> Vec<Tag> {
         Tag { weak: false, opaque: b"ABC".to_vec() },
         Tag { weak: false, opaque: b"W/".to_vec() },
         Tag { weak: false, opaque: b"x,y ,z".to_vec() },
+        // obs-text: bytes >= 0x80 that are not UTF-8 (a Latin-1 tag) and ones that are
+        Tag { weak: false, opaque: b"caf\xe9".to_vec() },
+        Tag { weak: true, opaque: b"caf\xe9".to_vec() },
+        Tag { weak: false, opaque: b"caf\xc3\xa9".to_vec() },
     ];
     if let Some(t) = etag {
         v.push(t.clone());
@@ -887,6 +903,14 @@ fn fault_scripts(chunks: &[u64]) -> Vec<(String, Vec<Op>)> {
             let mut v = base[..pos].to_vec();
             v.push(Op::Err(7));
             out.push((format!("error@{}", pos), v));
+            // a stream that keeps failing when polled again after its failure (as ChunkedReadFile does
+            // on a truncated file)
+            let mut v = base[..pos].to_vec();
+            v.push(Op::Err(7));
+            v.push(Op::Err(8));
+            v.push(Op::Pending);
+            v.push(Op::Err(9));
+            out.push((format!("error-and-again@{}", pos), v));
             let mut v = base[..pos].to_vec();
             v.push(Op::Pending);
             v.push(Op::Err(7));
@@ -1151,6 +1175,43 @@ pub fn gen_chunkings(rng: &mut Rng, thorough: bool, emit: &mut dyn FnMut(ServeCa
 }
 
 /// The corner where the true multipart length reaches 2^64 although the 80-byte estimate is below
+/// Entities whose modification time has no HTTP-date (the year 10000 and beyond: a garbage file
+/// timestamp; the Entity documentation allows future times): every kind of answer must still come
+/// out -- Last-Modified is the clock then, the conditional dates are compared with the time itself.
+pub fn gen_far_future(emit: &mut dyn FnMut(ServeCase)) {
+    let now = now_secs();
+    let last = 253_402_300_799u64; // 9999-12-31 23:59:59, the last HTTP-date there is
+    for secs in FAR_FUTURE_SECS {
+        for sub in [0u128, 1, 500_000_000] {
+            for etag in [None, Some(Tag { weak: false, opaque: b"abc".to_vec() })] {
+                for m in ["GET", "HEAD"] {
+                    let mut sets: Vec<Vec<(String, Vec<u8>)>> = vec![vec![]];
+                    for d in [http_date(now - 86400), http_date(now + 86400), http_date(last)] {
+                        sets.push(vec![("if-modified-since".into(), d.clone())]);
+                        sets.push(vec![("if-unmodified-since".into(), d.clone())]);
+                        sets.push(vec![("if-modified-since".into(), d.clone()), ("if-unmodified-since".into(), d.clone())]);
+                        sets.push(vec![("range".into(), b"bytes=1-3".to_vec()), ("if-range".into(), d.clone())]);
+                        sets.push(vec![("if-none-match".into(), b"\"xyz\"".to_vec()), ("if-modified-since".into(), d.clone())]);
+                        sets.push(vec![("if-match".into(), b"\"abc\"".to_vec()), ("if-unmodified-since".into(), d)]);
+                    }
+                    sets.push(vec![("if-none-match".into(), b"\"abc\"".to_vec())]);
+                    sets.push(vec![("if-match".into(), b"\"xyz\"".to_vec())]);
+                    sets.push(vec![("range".into(), b"bytes=1-3".to_vec())]);
+                    sets.push(vec![("range".into(), b"bytes=1-3, 500-600".to_vec())]);
+                    sets.push(vec![("range".into(), b"bytes=5000-".to_vec())]);
+                    sets.push(vec![("range".into(), b"bytes=1-3".to_vec()), ("if-range".into(), b"\"abc\"".to_vec())]);
+                    for h in sets {
+                        let mut e = ent_with(1000, &etag, None, ehdr_sets()[1].clone());
+                        e.mtime_ns = Some(secs as u128 * 1_000_000_000 + sub);
+                        let c = case(e, m, h, format!("G:far-future-mtime secs={} sub={}", secs, sub));
+                        emit(finish_case(c, &etag, vec![]));
+                    }
+                }
+            }
+        }
+    }
+}
+
 /// the entity length: astronomically large entity, one near-total range plus tiny ones, entity
 /// headers of every length (they decide whether the part header pushes the sum over the limit).
 /// Both sides of the boundary: 413 just above, multipart 206 just below.
